@@ -390,3 +390,142 @@ mod model {
         }
     }
 }
+
+/// The model is checked against the real crate: the same single-threaded operation sequences
+/// (try_send / try_recv / recv_timeout-on-non-empty / len / is_empty / sender and receiver
+/// clone + drop, capacities 1..5) must produce the same outcomes on both. Blocking behaviour and
+/// the rendezvous (capacity 0) case involve a second thread and are exercised by poolsim itself.
+#[cfg(all(test, huginn_net_verif_sched))]
+mod conformance {
+    use std::time::Duration;
+
+    #[derive(Debug, PartialEq)]
+    enum Out {
+        SendOk,
+        SendFull,
+        SendDisc,
+        Recv(u32),
+        RecvEmpty,
+        RecvDisc,
+        Len(usize),
+    }
+
+    fn lcg(s: &mut u64) -> u64 {
+        *s = s.wrapping_mul(6364136223846793005).wrapping_add(1442695040888963407);
+        *s >> 33
+    }
+
+    fn drive_real(seed: u64, cap: usize, n: usize) -> Vec<Out> {
+        let (tx, rx) = cb::bounded::<u32>(cap);
+        let mut txs = vec![tx];
+        let mut rxs = vec![rx];
+        let mut s = seed;
+        let mut out = vec![];
+        let mut next = 0u32;
+        for _ in 0..n {
+            match lcg(&mut s) % 10 {
+                0..=3 if !txs.is_empty() => {
+                    next += 1;
+                    out.push(match txs[0].try_send(next) {
+                        Ok(()) => Out::SendOk,
+                        Err(cb::TrySendError::Full(_)) => Out::SendFull,
+                        Err(cb::TrySendError::Disconnected(_)) => Out::SendDisc,
+                    })
+                }
+                4..=6 if !rxs.is_empty() => out.push(match rxs[0].try_recv() {
+                    Ok(v) => Out::Recv(v),
+                    Err(cb::TryRecvError::Empty) => Out::RecvEmpty,
+                    Err(cb::TryRecvError::Disconnected) => Out::RecvDisc,
+                }),
+                7 if !txs.is_empty() => out.push(Out::Len(txs[0].len())),
+                8 => {
+                    // clone or drop a sender
+                    if lcg(&mut s) % 2 == 0 && !txs.is_empty() {
+                        let c = txs[0].clone();
+                        txs.push(c);
+                    } else if !txs.is_empty() {
+                        txs.pop();
+                    }
+                }
+                9 if !rxs.is_empty() => {
+                    // non-blocking use of recv_timeout: only when something is queued or every sender is gone
+                    if rxs[0].len() > 0 || txs.is_empty() {
+                        out.push(match rxs[0].recv_timeout(Duration::from_millis(1)) {
+                            Ok(v) => Out::Recv(v),
+                            Err(cb::RecvTimeoutError::Timeout) => Out::RecvEmpty,
+                            Err(cb::RecvTimeoutError::Disconnected) => Out::RecvDisc,
+                        })
+                    }
+                }
+                _ => {}
+            }
+        }
+        out
+    }
+
+    fn drive_model(seed: u64, cap: usize, n: usize) -> Vec<Out> {
+        use super::model as m;
+        let (tx, rx) = m::bounded::<u32>(cap);
+        let mut txs = vec![tx];
+        let mut rxs = vec![rx];
+        let mut s = seed;
+        let mut out = vec![];
+        let mut next = 0u32;
+        for _ in 0..n {
+            match lcg(&mut s) % 10 {
+                0..=3 if !txs.is_empty() => {
+                    next += 1;
+                    out.push(match txs[0].try_send(next) {
+                        Ok(()) => Out::SendOk,
+                        Err(m::TrySendError::Full(_)) => Out::SendFull,
+                        Err(m::TrySendError::Disconnected(_)) => Out::SendDisc,
+                    })
+                }
+                4..=6 if !rxs.is_empty() => out.push(match rxs[0].try_recv() {
+                    Ok(v) => Out::Recv(v),
+                    Err(m::TryRecvError::Empty) => Out::RecvEmpty,
+                    Err(m::TryRecvError::Disconnected) => Out::RecvDisc,
+                }),
+                7 if !txs.is_empty() => out.push(Out::Len(txs[0].len())),
+                8 => {
+                    if lcg(&mut s) % 2 == 0 && !txs.is_empty() {
+                        let c = txs[0].clone();
+                        txs.push(c);
+                    } else if !txs.is_empty() {
+                        txs.pop();
+                    }
+                }
+                9 if !rxs.is_empty() => {
+                    if rxs[0].len() > 0 || txs.is_empty() {
+                        out.push(match rxs[0].recv_timeout(Duration::from_millis(1)) {
+                            Ok(v) => Out::Recv(v),
+                            Err(m::RecvTimeoutError::Timeout) => Out::RecvEmpty,
+                            Err(m::RecvTimeoutError::Disconnected) => Out::RecvDisc,
+                        })
+                    }
+                }
+                _ => {}
+            }
+        }
+        out
+    }
+
+    #[test]
+    fn model_channel_matches_crossbeam_on_sequential_histories() {
+        for cap in 1..=5usize {
+            for seed in 0..400u64 {
+                let real = drive_real(seed * 7919 + cap as u64, cap, 120);
+                let slot = std::sync::Arc::new(std::sync::Mutex::new(None));
+                let s2 = slot.clone();
+                shuttle::check_random(
+                    move || {
+                        *s2.lock().unwrap() = Some(drive_model(seed * 7919 + cap as u64, cap, 120));
+                    },
+                    1,
+                );
+                let model = slot.lock().unwrap().take().unwrap();
+                assert_eq!(real, model, "cap={} seed={}", cap, seed);
+            }
+        }
+    }
+}
